@@ -60,7 +60,23 @@ def prepare(rundir):
         src = src.replace(a, b)
     os.makedirs(os.path.join(d, "semaimpl"), exist_ok=True)
     open(os.path.join(d, "semaimpl", "sema_llgo.go"), "w").write(src)
-    open(os.path.join(d, "semaimpl", "shim.go"), "w").write(SHIM % "semaimpl")
+    # package-level state (maps, once flags, mutexes) must not leak from one execution into the next
+    resets = []
+    for m in re.finditer(r"^var (\w+) ([^=\n]+)$", src, flags=re.M):
+        resets.append("\t{ var z %s; %s = z }" % (m.group(2).strip(), m.group(1)))
+    shim = (SHIM % "semaimpl").replace('import "unsafe"', 'import (\n\t"unsafe"\n\n\tpsync "verifsched/standin/psync"\n)\n\nvar _ psync.Mutex') + "\n// ResetForVerif clears the package-level state between executions.\nfunc ResetForVerif() {\n" + "\n".join(resets) + "\n}\n"
+    shim += """
+type NotifyList = notifyList
+
+func SemaAcquire(addr *uint32) { semaAcquire(addr) }
+func SemaRelease(addr *uint32) { semaRelease(addr) }
+func NotifyListAdd(l *notifyList) uint32 { return sync_runtime_notifyListAdd(l) }
+func NotifyListWait(l *notifyList, t uint32) { sync_runtime_notifyListWait(l, t) }
+func NotifyListNotifyAll(l *notifyList) { sync_runtime_notifyListNotifyAll(l) }
+func NotifyListNotifyOne(l *notifyList) { sync_runtime_notifyListNotifyOne(l) }
+func NotifyCounters(l *notifyList) (uint32, uint32) { return l.wait, l.notify }
+"""
+    open(os.path.join(d, "semaimpl", "shim.go"), "w").write(shim)
     return d
 
 
